@@ -44,12 +44,13 @@ VARIABLES scen,        \* scenario description (first event)
           closed, termReq, closeReq, idleFired, esc,
           owed,        \* [Ends -> Nat] out-of-place messages not yet answered
           unk,         \* [Ends -> BOOLEAN] an unknown message type has reached e
+          refused,     \* [Ends -> SUBSET Nat] own transfers the peer refused while they were pending
           lastView,    \* [Ends -> view record or <<>>]
           now, lastWireT, lastTrafT, estT, termT
 
 ovars == <<tid, l, kfUsed, scen, wire, segs, ws, nH, hCum, hTerm, hInit, rxa, rxOct, txOct,
            queued, sfin, rfin, sstart, popped, closed, termReq, closeReq, idleFired, esc,
-           owed, unk, lastView, now, lastWireT, lastTrafT, estT, termT>>
+           owed, unk, refused, lastView, now, lastWireT, lastTrafT, estT, termT>>
 
 ----------------------------------------------------------------------------
 (* helpers *)
@@ -180,7 +181,8 @@ PopClauses(ev) ==
   LET e == ev.e IN {
     C({"C01"}, "PopReturnsExactlyTheSentBytes", Pair => ev.i.same),
     C({"C18", "C01"}, "PopOnlyAnnouncedAndOnce", ev.i.id \in (Ids(rfin[e]) \ popped[e])),
-    C({"C17"}, "PopReturnsOneTransfersSegmentsOnly", ~Pair => ev.i.same)
+    C({"C17"}, "PopReturnsOneTransfersSegmentsOnly",
+        ~Pair => \E x \in rxa[e].fin : x.id = ev.i.id /\ x.parts = ev.i.runs)
   }
 
 ViewClauses(ev) ==
@@ -232,10 +234,12 @@ FinalClauses(ev) ==
     C({"C18"}, "IdleBecomesTrueOnceDrained",
         (scen.quiesced /\ ~closed[e] /\ NothingPending(e) /\ esc[e] = 0 /\ txOct[e] = rxOct[p] /\ ~v.closed
             /\ rxOct[e] = txOct[p]) => v.idle),
-    C({"C17"}, "OutOfPlaceMessagesAnswered", owed[e] = 0),
+    CK({"C17"}, "OutOfPlaceMessagesAnswered", owed[e] = 0,
+        "unknown_type_never_answered", unk[e] /\ owed[e] = 1),
     C({"C17"}, "OwnTransfersUnaffected",
-        (~Pair /\ IsReal(e) /\ scen.cooperative /\ ~closed[e] /\ ~TermOnWire(e) /\ esc[e] = 0)
-           => Ids(queued[e]) = SuccessIds(sfin[e])),
+        (~Pair /\ IsReal(e) /\ scen.cooperative /\ ~closed[e] /\ ~TermOnWire(e) /\ ~hTerm[e] /\ esc[e] = 0 /\ ~unk[e])
+           => /\ Ids(queued[e]) \ refused[e] = SuccessIds(sfin[e])
+              /\ refused[e] \subseteq Ids(sfin[e])),
     C({"C14"}, "TerminatingEndpointStillCloses",
         (IsReal(e) /\ TermOnWire(e) /\ scen.idle[e] > 0 /\ scen.flush /\ now >= termT[e] + 1000 * scen.idle[e] + 1000)
            => closed[e])
@@ -300,16 +304,18 @@ Upd(ev) ==
         /\ hTerm' = [hTerm EXCEPT ![e] = @ \/ m.t = "TERM"]
         /\ hInit' = [hInit EXCEPT ![e] = @ \/ m.t = "INIT"]
         /\ estT' = (IF m.t = "INIT" THEN [estT EXCEPT ![e] = now] ELSE estT)
-        /\ rxa' = IF m.t = "SEG" /\ hInit[e] THEN
-                     IF HasStart(m.flags)
-                     THEN [rxa EXCEPT ![e] = [cur |-> IF HasEnd(m.flags) THEN NONE ELSE m.id, got |-> m.len,
-                                               held |-> IF HasEnd(m.flags) THEN r.held \cup {m.id} ELSE r.held]]
-                     ELSE IF r.cur = m.id
-                          THEN [rxa EXCEPT ![e] = [cur |-> IF HasEnd(m.flags) THEN NONE ELSE m.id, got |-> r.got + m.len,
-                                                    held |-> IF HasEnd(m.flags) THEN r.held \cup {m.id} ELSE r.held]]
-                          ELSE rxa
+        /\ rxa' = IF m.t = "SEG" /\ hInit[e] /\ (HasStart(m.flags) \/ r.cur = m.id) THEN
+                     LET base == IF HasStart(m.flags) THEN <<>> ELSE r.parts
+                         parts == IF m.len > 0 THEN Append(base, <<m.tok, m.len>>) ELSE base
+                         got == (IF HasStart(m.flags) THEN 0 ELSE r.got) + m.len
+                     IN IF HasEnd(m.flags)
+                        THEN [rxa EXCEPT ![e] = [cur |-> NONE, got |-> got, held |-> r.held \cup {m.id}, parts |-> <<>>,
+                                                  fin |-> {x \in r.fin : x.id # m.id} \cup {[id |-> m.id, parts |-> parts]}]]
+                        ELSE [rxa EXCEPT ![e] = [cur |-> m.id, got |-> got, held |-> r.held, parts |-> parts, fin |-> r.fin]]
                   ELSE rxa
      ELSE UNCHANGED <<nH, hCum, hTerm, hInit, estT, rxa>>
+  /\ refused' = (IF ev.a = "Handle" /\ ev.m.t = "REFUSE" /\ hInit[e] /\ ev.m.id \in (Ids(queued[e]) \ Ids(sfin[e]))
+                 THEN [refused EXCEPT ![e] = @ \cup {ev.m.id}] ELSE refused)
   /\ unk' = (IF ev.a = "View" /\ UnknownArrived(e) THEN [unk EXCEPT ![e] = TRUE] ELSE unk)
   /\ rxOct' = (IF ev.a = "Rx" THEN [rxOct EXCEPT ![e] = @ + ev.i.k] ELSE rxOct)
   /\ txOct' = (IF ev.a = "Tx" THEN [txOct EXCEPT ![e] = @ + ev.i.k] ELSE txOct)
@@ -329,16 +335,16 @@ Upd(ev) ==
   /\ esc' = (IF ev.a = "Escape" /\ ~ev.i.user THEN [esc EXCEPT ![e] = @ + 1] ELSE esc)
   /\ lastView' = (IF ev.a \in {"View", "Final"} THEN [lastView EXCEPT ![e] = ev.v] ELSE lastView)
 
-ObsInit ==
+ObsInitWith(realEnds) ==
   /\ kfUsed = {}
-  /\ scen = [kind |-> "none", real |-> <<"A", "P">>, faults |-> FALSE, flush |-> TRUE, quiesced |-> TRUE,
+  /\ scen = [kind |-> "none", real |-> realEnds, faults |-> FALSE, flush |-> TRUE, quiesced |-> TRUE,
              cooperative |-> TRUE, idle |-> [A |-> 0, P |-> 0]]
   /\ wire = [e \in Ends |-> <<>>]
   /\ segs = [e \in Ends |-> <<>>]
   /\ ws = [e \in Ends |-> [term |-> FALSE, nTerm |-> 0, cur |-> NONE, used |-> {}, nAck |-> 0]]
   /\ nH = [e \in Ends |-> 0] /\ hCum = [e \in Ends |-> 0]
   /\ hTerm = [e \in Ends |-> FALSE] /\ hInit = [e \in Ends |-> FALSE]
-  /\ rxa = [e \in Ends |-> [cur |-> NONE, got |-> 0, held |-> {}]]
+  /\ rxa = [e \in Ends |-> [cur |-> NONE, got |-> 0, held |-> {}, parts |-> <<>>, fin |-> {}]]
   /\ rxOct = [e \in Ends |-> 0] /\ txOct = [e \in Ends |-> 0]
   /\ queued = [e \in Ends |-> <<>>]
   /\ sfin = [e \in Ends |-> <<>>] /\ rfin = [e \in Ends |-> <<>>]
@@ -346,9 +352,10 @@ ObsInit ==
   /\ popped = [e \in Ends |-> {}]
   /\ closed = [e \in Ends |-> FALSE] /\ termReq = [e \in Ends |-> FALSE]
   /\ closeReq = [e \in Ends |-> FALSE] /\ idleFired = [e \in Ends |-> FALSE]
-  /\ esc = [e \in Ends |-> 0] /\ owed = [e \in Ends |-> 0] /\ unk = [e \in Ends |-> FALSE]
+  /\ esc = [e \in Ends |-> 0] /\ owed = [e \in Ends |-> 0] /\ unk = [e \in Ends |-> FALSE] /\ refused = [e \in Ends |-> {}]
   /\ lastView = [e \in Ends |-> <<>>]
   /\ now = 0
   /\ lastWireT = [e \in Ends |-> 0] /\ lastTrafT = [e \in Ends |-> 0]
   /\ estT = [e \in Ends |-> 0] /\ termT = [e \in Ends |-> 0]
+ObsInit == ObsInitWith(<<"A", "P">>)
 =============================================================================
